@@ -26,7 +26,7 @@ mod __verif_c11 {
         __verif_cover!("a 21-digit number", n == 21);
         __verif_ob!("integer#post None iff there is no digit", r.is_none() == (n == 0));
         __verif_ob!("integer#post consumes digits only while the value fits in usize", pos == k);
-        __verif_ob!("integer#post returns the value of the digits it consumed", n == 0 || r == Some(val as usize));
+        __verif_ob!("integer#post a width that fits in usize is read exactly", !(n > 0 && k == n) || r == Some(val as usize));
     }
     #[cfg(kani)]
     #[kani::proof]
